@@ -1751,6 +1751,16 @@ class TrackSpecificationReader:
                 f"{task.warmup_time_period} seconds and {task.iterations} iterations but mixing time periods "
                 f"and iterations is not allowed."
             )
+        elif task.iterations is not None and task.time_period is not None:
+            self._error(
+                f"Operation '{op.name}' in challenge '{challenge_name}' defines {task.iterations} iterations and a time period "
+                f"of {task.time_period} seconds but mixing time periods and iterations is not allowed."
+            )
+        elif task.warmup_iterations is not None and task.warmup_time_period is not None:
+            self._error(
+                f"Operation '{op.name}' in challenge '{challenge_name}' defines {task.warmup_iterations} warmup iterations and a "
+                f"warmup time period of {task.warmup_time_period} seconds but mixing time periods and iterations is not allowed."
+            )
 
         if (task.warmup_iterations is not None or task.iterations is not None) and task.ramp_up_time_period is not None:
             self._error(
